@@ -70,37 +70,46 @@ class C17(Prop):
     thorough_n = 6000
     search_n = 200
     design_ref = "5/C17"
-    technique = ("Lean 4 proof (decision logic of load_binary; sort_function_table swap loop, f_index remap, type_start; "
-                 "locate_out/locate_in; patch_out/patch_in) + source-derived constants and comparison sites + unit-style "
-                 "correspondence on the real static functions + translation validation of whole programs (fresh compile vs "
-                 "load from binary, model-on-real-tables) + independent staleness oracle over mtime histories")
-    level_text = ("Lean 4 theorems about an executable model of lib/lpc/program/binaries.c: the binary is used only when "
-                  "no dependency is newer - source, includes, simul_efun file, and for every program reachable through inherit "
-                  "lists its source, its includes and its saved binary (never_stale_transitive) - and both ids match; the in-place sort by swaps yields the sorted table for every "
-                  "table and every order, remapped f_index entries point at the same functions, type_start follows; "
-                  "relocation round-trips; string switch tables are sorted the way f_switch searches.  Equality of whole "
-                  "programs is by correspondence: generated programs are compiled, dumped, reloaded from the binary and "
-                  "dumped again; the Lean model predicts the reloaded dump from the fresh one and the Lean oracle compares "
-                  "functions, variables, inherits, line info, code and call results")
-    level_note = ("trusted: Lean kernel; nvlib/extract.py + the regular expressions of props/c17.py that read driver_id, "
-                  "magic_id and the comparison sites; the harness (differential; only generated programs and histories); "
-                  "quickSort is modelled by its contract (sorted permutation); byte-level file format and corrupted .b files "
-                  "are not covered; the program generator is a grammar of shapes, not all LPC")
-    rule = ("cases = corpus + known-finding inputs + boundary list + seeded random cases of five kinds: usort (random "
+    technique = ("Lean 4 proof (decision logic of load_binary and of save_binary's outdated-parent test; the code of qsort.c; "
+                 "sort_function_table swap loop, f_index remap, type_start; locate_out/locate_in; patch_out/patch_in; byte-level "
+                 "encode/decode of the .b file) + source-derived constants, member lists, statement orders and function texts + "
+                 "unit-style correspondence on the real static functions and the real quickSort + real .b files decoded by the "
+                 "model + translation validation of whole programs (fresh compile vs load from binary, model-on-real-tables) + "
+                 "independent staleness oracle over mtime / load histories")
+    level_text = ("Lean 4 theorems about an executable model of lib/lpc/program/binaries.c and lib/misc/qsort.c: the binary is used "
+                  "only when no dependency is newer - source, includes, simul_efun file, and for every program reachable through "
+                  "inherit lists its source, its includes and its saved binary (never_stale_transitive) - and both ids match; a "
+                  "binary is written only for a program whose inherited programs, at any depth, are still current in memory "
+                  "(saved_only_against_current_parents); quickSort as coded permutes for every comparison function and sorts for "
+                  "strict orders, so the function table and every string switch table come out in the order their searches "
+                  "assume; the in-place sort by swaps, the f_index remap and type_start follow; relocation round-trips and covers "
+                  "every pointer member; the byte format round-trips (binary_file_roundtrip) and every read is length-checked.  "
+                  "Equality of whole programs is by correspondence: generated programs are compiled, dumped, reloaded from the "
+                  "binary and dumped again; the Lean model predicts the reloaded dump from the fresh one and the Lean oracle "
+                  "compares functions, variables, inherits, line info, code and call results")
+    level_note = ("trusted: Lean kernel; nvlib/extract.py + the regular expressions of props/c17.py that read ids, member "
+                  "lists, statement orders and function texts; the harness (differential; only generated programs and "
+                  "histories); the compiler is not modelled (its dumps are data); no formal judge(model trace) = [] for whole "
+                  "histories - clause-level invariants instead; open finding C17-include-shadowed (include search order); the "
+                  "program generator is a grammar of shapes, not all LPC")
+    rule = ("cases = corpus + known-finding inputs + boundary list + seeded random cases of six kinds: uqsort (the real quickSort "
+            "on 0..250 elements of 4/8/10 bytes under comparison tables that are orders, preorders, constant or random), usort (random "
             "function tables, permutations, compressed-table headers, type_start), ureloc, upatch (random string switch "
             "tables, far-apart fake addresses, offsets above 32767), utimes, and system histories (generated program "
             "families with string switches, inheritance chains, includes, classes, function literals, save_types; steps "
             "compile / edit source / edit include / touch inherited / touch simul_efun + restart / nothing, distinct mtimes, "
-            "touch simul_efun without restart / damage (truncation, bit flip) / foreign (other magic, driver_id, config_id) / "
+            "touch simul_efun without restart / parent edited (variables and functions shift) but not loaded again while its heirs are compiled / damage (truncation, bit flip) / foreign (other magic, driver_id, config_id) / "
             "binary moved to another name / failing compile first; pragma on top, between functions, last line, in an include, "
             "toggled; chains with unsaved parents; every reload either in the same process or each in a fresh process; "
             "reload after every step with permuted string addresses; every decision branch of the model is taken (histogram.decision_branches); non-trivial = trace with >= 2 lines; distinct = "
             "distinct canonical implementation trace")
-    not_covered = ["byte-level layout of the .b file; damaged .b files are only explored (random truncations / bit flips under ASan, counts in the evidence): flipped bits inside the saved program_t can crash the driver (open exploration finding C17-damaged-binary-crash)",
-                   "quickSort itself (modelled by its contract; the comparators are modelled exactly)",
-                   "an inherited program that was edited but not reloaded before its heir was compiled (mtime schemes cannot see it)",
-                   "a new include file that shadows a recorded one earlier in the search path",
-                   "LPC_TO_C, Windows paths"]
+    not_covered = ["an include file shadowed by a new file earlier in the search path: open finding C17-include-shadowed "
+                   "(witness + partial theorem; replayed from the known input only, not generated)",
+                   "the refusal branches of save_binary for programs / include lists above USHRT_MAX and strings of USHRT_MAX "
+                   "or more (they are the hypotheses of binary_file_roundtrip; no generated program is that large)",
+                   "clock granularity: an edit in the same second as a load or a save (the quantifier has distinct times)",
+                   "crdir_fopen, valid_save_binary refusals, re-entrancy of the master apply inside save_binary",
+                   "f_switch's binary search itself (C03); LPC_TO_C, Windows paths"]
 
     # ---- stage A: generated Lean from the source text ---------------------
     def gen_extra(self, ctx, bdir):
